@@ -234,7 +234,7 @@ fn entries() -> Vec<Entry> {
         Entry { id: 73, name: "hash_and_sign_event", kinds: &[Text, Text, Json, Sel], f: e_hash_and_sign, seeds: || sp(&[&["domain", "1", SIGNED, "5"], &["domain", "1", EV_MEMBER, "11"], &["domain", "1", EV_POWER, "1"]]) },
         Entry { id: 74, name: "content_hash / reference_hash / canonical_json", kinds: &[Json, Sel], f: e_hashes, seeds: || sp(&[&[SIGNED, "1"], &[SIGNED, "4"], &[EV_CREATE, "11"]]) },
         Entry { id: 75, name: "redact", kinds: &[Json, Sel], f: e_redact, seeds: || sp(&[&[EV_MEMBER, "9"], &[EV_MEMBER, "11"], &[EV_POWER, "1"], &[EV_CREATE, "11"], &[EV_JOIN_RULES, "8"]]) },
-        Entry { id: 77, name: "content sub-structures read on their own (Restricted, AllowRule, JoinRule, power levels, member)", kinds: &[Json, Sel], f: e_content_parts, seeds: || sp(&[&[r##"{"allow":[{"type":"m.room_membership","room_id":"!a:b.c"},{"type":"x.custom","a":1},5]}"##, "0"], &[r##"{"type":"m.room_membership","room_id":"!a:b.c"}"##, "1"], &[r##"{"join_rule":"restricted","allow":[{"type":"m.room_membership","room_id":"!a:b.c"}]}"##, "2"], &[r##"{"users":{"@a:b.c":100},"events":{"m.room.name":"50"},"ban":"+50","notifications":{"room":20}}"##, "3"], &[r##"{"membership":"join","displayname":null,"avatar_url":""}"##, "4"], &[r##"{"join_rule":"knock_restricted","allow":[1,{"type":"m.room_membership","room_id":"!a:b.c"}]}"##, "5"]]) },
+        Entry { id: 77, name: "content sub-structures read on their own (Restricted, AllowRule, JoinRule, power levels, member)", kinds: &[Json, Sel], f: e_content_parts, seeds: || sp(&[&[r##"{"allow":[{"type":"m.room_membership","room_id":"!a:b.c"},{"type":"x.custom","a":1},5]}"##, "0"], &[r##"{"type":"m.room_membership","room_id":"!a:b.c"}"##, "1"], &[r##"{"join_rule":"restricted","allow":[{"type":"m.room_membership","room_id":"!a:b.c"}]}"##, "2"], &[r##"{"users":{"@a:b.c":100},"events":{"m.room.name":"50"},"ban":"+50","notifications":{"room":20}}"##, "3"], &[r##"{"users":{"@a:b.c":"+"},"events":{"m.room.name":" + "},"ban":"+","kick":"-","invite":" ","redact":"","notifications":{"room":"+\n"}}"##, "3"], &[r##"{"membership":"join","displayname":null,"avatar_url":""}"##, "4"], &[r##"{"join_rule":"knock_restricted","allow":[1,{"type":"m.room_membership","room_id":"!a:b.c"}]}"##, "5"]]) },
         Entry { id: 76, name: "Ed25519KeyPair::from_der (ring-compat)", kinds: &[Bytes, Text], f: e_from_der, seeds: seeds_from_der },
         // ---- HTML ---------------------------------------------------------------------------------
         Entry { id: 80, name: "sanitize_html / remove_html_reply_fallback / Html::{parse, sanitize, to_string}", kinds: &[Html, Sel], f: e_sanitize_html, seeds: || sp(&[&[HTML1, "0"], &[HTML1, "1"], &[HTML1, "2"], &[HTML1, "3"], &[HTML1, "4"], &["<p>a<b>c</p>d</b><svg><a xlink:href='x'>t</a></svg><math><mi>x</mi></math><template><p>t</p></template>", "4"], &[HTML_TYPED, "4"]]) },
